@@ -957,6 +957,9 @@ func (ex *Exec) returnFrom(st *State, vals []Value) {
 		ex.endPath("done")
 	}
 	caller := st.top()
+	if fr.retry {
+		return
+	}
 	if fr.call != nil {
 		var rv Value
 		switch len(vals) {
